@@ -112,6 +112,103 @@ fn case_digest(case: &Case) -> u64 {
     rng::fnv1a(serde_json::to_string(case).unwrap_or_default().as_bytes())
 }
 
+/// Builds without zstd (Miri) replace that codec; `small` additionally shrinks the case so that an
+/// interpreter can execute it in seconds.
+fn adapt_small(mut case: Case, small: bool) -> Case {
+    use crate::case::*;
+    fn knobs(k: &mut Knobs, small: bool) {
+        if !cfg!(feature = "zstd") && k.codec == 4 {
+            k.codec = 3;
+        }
+        if small {
+            if k.codec == 2 && k.level > 9 {
+                k.level = 6;
+            }
+            if k.levels > 3 {
+                k.levels = 3;
+            }
+        }
+    }
+    fn ents(e: &mut Entries, cap: usize, small: bool) {
+        if !small {
+            return;
+        }
+        match e {
+            Entries::Literal(v) => {
+                v.truncate(cap);
+                for (_, val) in v.iter_mut() {
+                    if val.0.len() > 700 {
+                        val.0.truncate(700);
+                        if val.0.len() >= 2 {
+                            let l = (val.0.len() as u16).to_be_bytes();
+                            val.0[0] = l[0];
+                            val.0[1] = l[1];
+                        }
+                    }
+                }
+            }
+            Entries::Counter { n, vlen, .. } => {
+                *n = (*n).min(cap as u64);
+                *vlen = (*vlen).min(200);
+            }
+        }
+    }
+    match &mut case {
+        Case::File(c) => {
+            knobs(&mut c.spec.knobs, small);
+            ents(&mut c.spec.entries, 30, small);
+        }
+        Case::Cursor(c) => {
+            knobs(&mut c.spec.knobs, small);
+            ents(&mut c.spec.entries, 30, small);
+            if small {
+                c.steps.truncate(20);
+                for s in c.steps.iter_mut() {
+                    if let Op::NextN(k) | Op::PrevN(k) = &mut s.op {
+                        *k = (*k).min(8);
+                    }
+                }
+            }
+        }
+        Case::Iter(c) => {
+            knobs(&mut c.spec.knobs, small);
+            ents(&mut c.spec.entries, 30, small);
+            if small {
+                c.queries.truncate(4);
+            }
+        }
+        Case::Merge(c) => {
+            for s in c.sources.iter_mut() {
+                knobs(&mut s.knobs, small);
+                ents(&mut s.entries, 12, small);
+            }
+            knobs(&mut c.out_knobs, small);
+        }
+        Case::Sort(c) => {
+            ents(&mut c.inserts, 40, small);
+            knobs(&mut c.out_knobs, small);
+            for k in std::iter::once(&mut c.knobs).chain(c.alt_knobs.iter_mut()) {
+                if !cfg!(feature = "zstd") && k.chunk_codec == Some(4) {
+                    k.chunk_codec = Some(3);
+                }
+                if small {
+                    if k.creator == 2 {
+                        k.creator = 0;
+                    }
+                    if let Some(t) = k.raw_threshold.as_mut() {
+                        *t = (*t).min(1024);
+                    }
+                    if let Some(c) = k.init_cap.as_mut() {
+                        *c = (*c).min(1024);
+                    }
+                }
+            }
+        }
+        Case::Open(_) => {}
+    }
+    case
+}
+
 fn worker(args: &[String]) -> i32 {
     init_runtime();
     let prop = arg(args, "--prop").unwrap();
@@ -135,7 +232,9 @@ fn worker(args: &[String]) -> i32 {
         let sub = sub_seed(master, &prop, run);
         let _ = std::fs::write(out.with_extension("cur"), run.to_string());
         let mut r = Rng::new(sub);
-        let case = props::gen_case(&prop, &mut r, tier);
+        let tiny = args.iter().any(|a| a == "--tiny");
+        let case = if tiny { props_env::gen_tiny(&mut r) } else { props::gen_case(&prop, &mut r, tier) };
+        let case = if cfg!(miri) || !cfg!(feature = "zstd") || std::env::var_os("VERIF_SMALL").is_some() { adapt_small(case, cfg!(miri) || std::env::var_os("VERIF_SMALL").is_some()) } else { case };
         let t_run = Instant::now();
         let ev0 = st.evaluations;
         let (pc0, io0) = (st.public_calls, st.io_calls);
